@@ -80,9 +80,28 @@ pub fn judge(argv: &[String], stdin: &[u8], stdout: &StdoutKind, acc: &mut Acc) 
             acc.count("class_usage");
             climodel::judge_usage(&out)
         }
+        CliClass::Help(_) if *stdout == StdoutKind::DevFull => {
+            // help text cannot be delivered; the manual promises nothing beyond not failing loudly
+            acc.count("class_help_dev_full");
+            if matches!(out.status, procmon::Status::Exit(_)) { Ok(()) } else { Err(format!("wait status {}", out.status.show())) }
+        }
         CliClass::Help(k) => {
             acc.count("class_help");
             climodel::judge_help(&out, k)
+        }
+        CliClass::Run { from, to, paths } if *stdout == StdoutKind::DevFull => {
+            // every write fails: a run that has anything to write must end with status 1
+            // and a message; a run that fails before writing keeps its usual outcome
+            acc.count("class_run_dev_full");
+            let exp = climodel::emulate(*from, *to, paths, &files(), stdin, &StdoutKind::Pipe);
+            let err = String::from_utf8_lossy(&out.stderr);
+            if exp.exit == 0 && exp.stdout_ceiling.is_empty() {
+                if out.status == procmon::Status::Exit(0) { Ok(()) } else { Err(format!("wait status {} (nothing to write, expected exit 0)", out.status.show())) }
+            } else if out.status != procmon::Status::Exit(1) || !err.starts_with("xt error") {
+                Err(format!("wait status {} with stdout on a full device (expected exit 1 and a message beginning 'xt error': {})", out.status.show(), if exp.exit == 0 { "the output cannot be written" } else { exp.why.as_str() }))
+            } else {
+                Ok(())
+            }
         }
         CliClass::Run { from, to, paths } => {
             acc.count("class_run");
@@ -94,7 +113,7 @@ pub fn judge(argv: &[String], stdin: &[u8], stdout: &StdoutKind, acc: &mut Acc) 
             climodel::judge_run(&out, &exp).map_err(|e| format!("{e} [{}]", exp.why))
         }
     };
-    acc.count(&format!("stdout_{}", match stdout { StdoutKind::Pipe => "pipe", StdoutKind::File => "file", StdoutKind::Pty => "pty", _ => "other" }));
+    acc.count(&format!("stdout_{}", match stdout { StdoutKind::Pipe => "pipe", StdoutKind::File => "file", StdoutKind::Pty => "pty", StdoutKind::DevFull => "dev_full", _ => "other" }));
     if let Err(e) = verdict {
         let sig_class = match &class {
             CliClass::Usage(w) => format!("usage({w})"),
@@ -111,9 +130,10 @@ pub fn judge(argv: &[String], stdin: &[u8], stdout: &StdoutKind, acc: &mut Acc) 
 }
 
 fn stdout_kind(i: usize) -> StdoutKind {
-    match i % 4 {
+    match i % 5 {
         0 | 1 => StdoutKind::Pipe,
         2 => StdoutKind::File,
+        3 => StdoutKind::DevFull,
         _ => StdoutKind::Pty,
     }
 }
@@ -157,11 +177,11 @@ pub fn run(ctx: &Ctx) -> i32 {
             judge(&argv, STDINS[(i / 3) % 3], &k2, acc);
         }
     });
-    let rule = format!("EVERY argument vector of length 0..={} over a {}-token vocabulary (-f/-t with every name and alias in attached, detached and '=' forms, repeated, missing value, invalid name; unknown short/long options; -h --help -V --version and clustered/valued forms; '--'; '-'; translatable / malformed / undetectable / unrepresentable / missing / directory / empty paths) plus {} random vectors of length 3-6; each run with a pipe and (rotating) a file or pseudo-terminal as stdout, stdin content rotating over translatable / malformed / empty; distinct non-trivial = distinct argument vectors", exhaustive_len, v, n_random);
+    let rule = format!("EVERY argument vector of length 0..={} over a {}-token vocabulary (-f/-t with every name and alias in attached, detached and '=' forms, repeated, missing value, invalid name; unknown short/long options; -h --help -V --version and clustered/valued forms; '--'; '-'; translatable / malformed / undetectable / unrepresentable / missing / directory / empty paths) plus {} random vectors of length 3-6; each run with a pipe and (rotating) a file, a pseudo-terminal or /dev/full as stdout, stdin content rotating over translatable / malformed / empty; distinct non-trivial = distinct argument vectors", exhaustive_len, v, n_random);
     let mut extra = serde_json::Map::new();
     extra.insert("argv_exhaustive_up_to_length".into(), json!(exhaustive_len));
     ev::finish(
-        Finish { ctx, level: "exploration", rule, assumptions: vec!["the harness runs as root, so an unreadable-file case cannot be produced (permission bits are ignored); missing files and directories stand in for open failures".into(), "argv is tokenised by the lexopt crate, the manual's rules are applied by the harness".into()], extra, exhaustive: false, min_distinct: 1000, must_reach: vec![("class_usage".into(), 500), ("class_help".into(), 200), ("class_run".into(), 500), ("run_expected_exit_0".into(), 100), ("run_expected_exit_1".into(), 100), ("msgpack_to_terminal_cases".into(), 10), ("stdout_pty".into(), 200)] },
+        Finish { ctx, level: "exploration", rule, assumptions: vec!["the harness runs as root, so an unreadable-file case cannot be produced (permission bits are ignored); missing files and directories stand in for open failures".into(), "argv is tokenised by the lexopt crate, the manual's rules are applied by the harness".into()], extra, exhaustive: false, min_distinct: 1000, must_reach: vec![("class_usage".into(), 500), ("class_help".into(), 200), ("class_run".into(), 500), ("run_expected_exit_0".into(), 100), ("run_expected_exit_1".into(), 100), ("msgpack_to_terminal_cases".into(), 10), ("stdout_pty".into(), 200), ("class_run_dev_full".into(), 50)] },
         acc,
     )
 }
@@ -173,6 +193,7 @@ pub fn replay(v: &Value) -> i32 {
     let stdout = match c["stdout"].as_str() {
         Some("File") => StdoutKind::File,
         Some("Pty") => StdoutKind::Pty,
+        Some("DevFull") => StdoutKind::DevFull,
         _ => StdoutKind::Pipe,
     };
     let mut acc = Acc::default();
